@@ -350,4 +350,24 @@ def _run_estimator(unit, rec, dreye):
                 rec.outcome("estimator-ok" if ok else "estimator-bad")
                 if not ok:
                     rec.violation("h", sig, "ReceptorEstimator.capture differs from the trapezoid oracle on its own domain", case, observed=np.asarray(out)[-3:], expected=np.asarray(exp)[-3:])
+    if d == 2:
+        # long wavelength axes (sizes around powers of two, where chunked implementations switch), trapezoid and rectangle rule
+        for nlong in (2049, 3000, 4097):
+            xs = np.arange(nlong)
+            Fl = np.array([((xs * 7 + 3) % 11 - 4) / 4.0, ((xs * 5 + 1) % 13 - 6) / 8.0])
+            Sl = np.array([((xs * 3 + 2) % 7 - 3) / 2.0, ((xs * 11 + 5) % 9 - 4) / 4.0, np.ones(nlong)])
+            doms = [("scalar", 0.5), ("uniform-array", (300.0 + 0.25 * xs).tolist()), ("nonuniform-array", (300.0 + 0.25 * xs + 0.125 * (xs % 3 == 0)).tolist())]
+            for dkind, dom in doms:
+                for trapz in ((True, False) if dkind == "scalar" else (True,)):
+                    rec.path()
+                    kw = dict(domain=(dom if dkind == "scalar" else np.array(dom)), trapz=trapz)
+                    okw = dict(dx=dom, trapz=trapz) if dkind == "scalar" else dict(x=dom, trapz=True)
+                    out, exc = _call(rec, dreye.calculate_capture, Fl, Sl, **kw)
+                    exp = O.capture_ref(Fl, Sl, **okw)
+                    okl = exc is None and np.shape(out) == exp.shape and bool(np.all(np.abs(np.asarray(out) - exp) <= 1e-10 * (1.0 + np.abs(exp))))
+                    rec.distinct(("long", nlong, dkind, trapz))
+                    rec.outcome("long-domain/%s" % ("ok" if okl else "bad"))
+                    if not okl:
+                        rec.violation("a", dict(api="calculate_capture", shapes="F=(2,n) S=(3,n)", domain=dkind + "/long", trapz=trapz), "capture on a domain of %d samples differs from the trapezoid oracle%s" % (nlong, "" if exc is None else " (raised %r)" % (exc,)),
+                                      dict(n=nlong, domain=dkind, trapz=trapz), observed=None if exc is not None else np.asarray(out), expected=exp)
     rec.sample(dict(api="ReceptorEstimator.capture", d=d), cap=1)
